@@ -149,6 +149,12 @@ func Observe(label string, v interface{}) {
 // Symbolic reports whether the code runs under the symbolic executor.
 func Symbolic() bool { return false }
 
+// ReverseMaps makes the executor iterate Go maps in reverse insertion order
+// from here on (default: insertion order), so that a harness can explore both
+// as a symbolic dimension: `if rt.Bool("maps-reversed") { rt.ReverseMaps(true) }`.
+// Natively the iteration order is random anyway; replays are repeated.
+func ReverseMaps(on bool) {}
+
 // Tier: 0 = quick, 1 = thorough.
 func Tier() int { return tier }
 
